@@ -20,7 +20,7 @@ func init() {
 	ruleText["C10"] = "part A (transparency): base object schemas (string / integer / array-of-objects / nested object / enum / map members) x every non-empty subset (<= 2; thorough <= 3) of subschema positions factored out into #/$defs/N, #/definitions/N, a sibling file, a file in a sub-directory, a file in the parent directory, as .json or flow-style .yaml, referenced with or without extension (--resolve-extension), two referrers per definition; " +
 		"the reference model first confirms on every document that the factored schema is equivalent to the inline one; the factored program is generated, compiled and fed every enumerated document; oracle = verdict and decoded value tree as the model says, and exactly one type declaration per definition; " +
 		"part B (recursion): reference graphs over <= 3 definitions (self loop, 2- and 3-cycles through properties, array items, map values, allOf, anyOf, required and optional edges): the generator terminates in a worker (60 s), the output compiles, documents nested to the enumerator's depth decode as the model says; " +
-		"part C (loader state): the same relative reference text in two directories, all DoFile histories (shared with C20); non-trivial = differs from base; distinct = (source hash, document)"
+		"part C (loader state): the same relative reference text in two directories, all DoFile histories (shared with C20); part D (one reference text, several documents): four documents, each with its own #/$defs/Common referred to by the same text as allOf member / anyOf member / property, with distinct ids and without ids: every history of <= 2 (thorough: <= 4) documents on one generator must yield the union of the single-document declarations up to the generator's renaming of colliding names; non-trivial = differs from base; distinct = (source hash, document)"
 }
 
 var c10Devs = []string{"NULL_OBJECT_VALIDATES_ZERO", "LEN_BYTES", "UNENFORCED_NAMED_ARRAY", "UNENFORCED_ITEM_STRING", "UNENFORCED_ITEM_NUMERIC", "REF_UNTYPED_DEF_IS_ANY", "FORMAT_DEF_NO_METHODS", "UNENFORCED_NAMED_ARRAY_ITEM_REQUIRED",
@@ -251,6 +251,12 @@ func c10(ctx *Ctx) {
 			}
 		}
 	}
+	// part D: one reference text, several documents (with distinct ids and without any id)
+	for _, u := range c20Universes(0) {
+		if strings.HasPrefix(u.name, "same-def-name/") {
+			c10SameRefText(ctx, u)
+		}
+	}
 	ctx.Run.Assume("http(s) references cannot be exercised (no network)", "YAML targets are written in flow (JSON) style so that the reference model can read them",
 		"sibling keywords next to $ref are not used")
 }
@@ -365,6 +371,80 @@ func c10LoaderState(ctx *Ctx, u c20Universe, mp c20Mapping) {
 		}
 	}
 	_ = jsonv.Text
+}
+
+// c10SameRefText (part D): every document of the universe has its own definition Common and refers to it by the same text
+// "#/$defs/Common" (as allOf member, anyOf member, plain property). A reference resolves relative to the document it occurs in,
+// so after any history of documents processed by one generator the declarations must be the union of what each document
+// yields when processed alone, up to the renaming the generator applies to colliding names (oracle shared with C20).
+func c10SameRefText(ctx *Ctx, u c20Universe) {
+	cfg := genlab.Cfg{Package: "example.com/m/dflt", ResolveExt: []string{".json"}}
+	var hs [][]int
+	for i := 0; i < 4; i++ {
+		hs = append(hs, []int{i})
+	}
+	for i := 0; i < 4; i++ {
+		for j := 0; j < 4; j++ {
+			if i != j {
+				hs = append(hs, []int{i, j})
+			}
+		}
+	}
+	if ctx.Level >= 1 {
+		for _, pm := range permutations4() {
+			hs = append(hs, pm[:3], pm)
+		}
+	}
+	var jobs []genlab.Job
+	seen := map[string]bool{}
+	var uniq [][]int
+	for _, h := range hs {
+		if seen[fmt.Sprint(h)] {
+			continue
+		}
+		seen[fmt.Sprint(h)] = true
+		uniq = append(uniq, h)
+		var args []string
+		for _, i := range h {
+			args = append(args, u.files[i].Path)
+		}
+		gc := genlab.Case{ID: "C10/D/" + u.name + fmt.Sprint(h), Files: u.files, Args: args, Cfg: cfg}
+		jobs = append(jobs, genlab.Job{Op: "gen", Case: &gc, KeepOutputs: true})
+	}
+	resps, err := ctx.Pool.RunAll(jobs)
+	if err != nil {
+		harnessFail("pool: %v", err)
+	}
+	obs := map[string]obsState{}
+	for i, r := range resps {
+		st, _ := observe(r)
+		obs[fmt.Sprint(uniq[i])] = st
+	}
+	for i, h := range uniq {
+		ctx.Run.Eval("same-ref-text|"+u.name+fmt.Sprint(h), len(h) > 1)
+		ctx.Run.Count("same_ref_text_histories", 1)
+		if len(h) < 2 {
+			continue
+		}
+		st := obs[fmt.Sprint(h)]
+		replay := map[string]any{"kind": "gen", "files": u.files, "args": jobs[i].Case.Args, "cfg": cfg}
+		alone := true
+		for _, j := range h {
+			if obs[fmt.Sprint([]int{j})].err != "" {
+				alone = false
+			}
+		}
+		if !alone {
+			continue
+		}
+		if st.err != "" {
+			ctx.Run.Violation("same-ref-text:history-dependent-error", fmt.Sprintf("C10/D/%s: history %v fails (%s) although each document is accepted alone", u.name, h, st.err), replay)
+			continue
+		}
+		if msg := c20ComposeRenamed(h, obs, st); msg != "" {
+			ctx.Run.Violation("same-ref-text:not-document-relative", fmt.Sprintf("C10/D/%s: history %v: \"#/$defs/Common\" does not denote each document's own definition: the declarations are not the union of the single-document runs up to renaming: %s", u.name, h, msg), replay)
+		}
+	}
 }
 
 func lastLine(s string) string {
